@@ -1541,6 +1541,13 @@ def cases(rng, tier):
         for p in ("/", "/dir", "/dir/", "/x", "/missing", "/empty", "/../x", "", "/dir/index", "/noext"):
             for hdrs in ([], [("Host", "example.org:8000")]):
                 yield mk_line(flat(("s", pages, world["base"]), world=world), req(path=p, headers=hdrs, query=b"a=1"))
+    # ---- forms around the documented limit on the number of parts (the two helpers count on their own)
+    for k in (323, 324, 325):
+        parts = [Part("f%d" % (i % 7), b"v%d" % i) for i in range(k)]
+        data = encode_form(b"XyZ", parts)
+        for chunks in ([data], [data[:1000], data[1000:]]):
+            yield mk_line(flat(("v", 5)), req(method="POST", path="/", body=chunks,
+                                             headers=[("Content-Type", "multipart/form-data; boundary=XyZ")]))
     # ---- random
     n = 2400 if not big else 60000
     for _ in range(n):
